@@ -462,7 +462,7 @@ void Ctx::c07() {
                 for (int ri : recv_by_conn[ci]) {
                     auto& r = B.recv[ri];
                     if (!r.decode_err.empty() || r.pkt.type != PUBLISH || r.pkt.qos == 0) continue;
-                    ev.push_back({r.t, +1});
+                    ev.push_back({r.first_group ? s.net.groups[r.first_group - 1].t_start : r.t, +1});   // the slot is taken when the client hands the packet over
                     ns_t end = -1;
                     for (int si : bc->sent) { auto& sp = B.sent[si];
                         if (sp.pkt.pid != r.pkt.pid || sp.seq < r.seq || !sp.delivered_seq) continue;
@@ -475,7 +475,7 @@ void Ctx::c07() {
                 if (from >= 0) busy.push_back({from, tr});
             }
             for (auto& g : s.net.groups) if (g.conn == ci && g.t_start < tr) busy.push_back({g.t_start, g.done ? g.t_done : tr});   // a write the transport has not completed
-            for (auto& m : s.marks) if (m.kind == MarkKind::stall) busy.push_back({m.t, m.t + (ns_t)m.arg});
+            for (auto& m : s.marks) if (m.kind == MarkKind::stall) busy.push_back({m.t - (ns_t)m.arg, m.t});   // the mark is taken when the stall ends
             std::sort(busy.begin(), busy.end());
             ns_t cur = tw; bool quiet = false; ns_t qfrom = 0;
             for (auto& b : busy) {
